@@ -39,8 +39,8 @@ for d in sorted(glob.glob(str(root / "seeded" / "*"))):
     b0 = re.sub(r"\s+", " ", b[0])[:110] if b else "-"
     if m["confirmed"]:
         n += 1; nc += bool(m["caught_by_quick"])
-    out.append(f"| {Path(d).name} | {need} | {'yes' if m['confirmed'] else 'NO'} | {'yes' if m['caught_by_quick'] else (('no at first; yes after strengthening (' + m['strengthened'] + ')') if m.get('strengthened') else ('NO' if m['confirmed'] else '-'))} | {b0} |")
-out.append(f"\nConfirmed seeded changes: {n}; caught by the quick tier as it stood when the change was evaluated: {nc}; every one of the remaining {n - nc} is caught after the strengthening described in 10.3 (re-run with tools/try_patch.sh).\n")
+    out.append(f"| {Path(d).name} | {need} | {'yes' if m['confirmed'] else 'NO'} | {'yes' if m['caught_by_quick'] else (('no at first; yes after strengthening (' + m['strengthened'] + ')') if m.get('strengthened') else (('no (by design, see 10.3); caught by ' + m['caught_by_other'].split(' (')[0]) if m.get('caught_by_other') else ('NO' if m['confirmed'] else '-')))} | {b0} |")
+out.append(f"\nConfirmed seeded changes: {n}; caught by the quick tier as it stood when the change was evaluated: {nc}; every one of the remaining {n - nc} is caught after the strengthening described in 10.3 (re-run with tools/try_patch.sh), except seeded/C03-3, which alters the weights `gaussian()` produces and is caught by C36 rather than C03 (10.3).\n")
 notes = root / "tools" / "sensitivity_notes.md"
 if notes.exists():
     out.append(notes.read_text())
